@@ -3,6 +3,7 @@ C07 — tracks do not interfere; intra-tick order is fixed; shared static state 
 -/
 import IsobarV.Sched.BalanceOps
 import IsobarV.Sched.Fields
+import IsobarV.Sched.Solo
 
 namespace IsobarV.C07
 open IsobarV.Sched
@@ -42,5 +43,109 @@ theorem event_phase_in_order (W : World) (tl : TL) (tid : Nat) (rest : List Nat)
     · right; right; exact ⟨_, rfl⟩
     · left; rfl
   · right; left; exact ⟨_, rfl⟩
+
+/-! ### Non-interference
+
+In a world whose tracks do not call the timeline API (separate pattern objects, no action callbacks)
+and with unique track identities, one timeline tick is: every track's due note-offs; then, track by
+track in scheduling order, a function of THAT TRACK ALONE (`soloTick` after its own note-offs and its
+own pending starts).  Hence several tracks produce exactly the merge of what each produces alone. -/
+
+/-- A track after the note-off phase and the pending starts of this tick: a function of the track,
+    the tick length and the due start actions only. -/
+def prepared (tl : TL) : List Track :=
+  (tl.tracks.map (Track.processOffs tl.q)).map (applyStarts tl.q (tl.actions.filter (PAct.due tl)))
+
+theorem tick_decomposes (W : World) (hW : NoActions W) (tl : TL) (hnd : (tl.tracks.map Track.id).Nodup) :
+    (tickTL W tl).calls = phaseOffsCalls tl.q tl.tracks ++ (soloPhase W tl.q tl.tolerant (prepared tl)).calls ∧
+    (tickTL W tl).tl.tracks = (soloPhase W tl.q tl.tolerant (prepared tl)).tracks := by
+  have hids0 : (phaseOffs tl).tracks.map Track.id = tl.tracks.map Track.id := by
+    simp [phaseOffs, List.map_map, Track.processOffs, Function.comp_def]
+  have hdue : (phaseOffs tl).actions.filter (PAct.due (phaseOffs tl)) = tl.actions.filter (PAct.due tl) := rfl
+  obtain ⟨f1, f2, f3⟩ := foldl_fireOne_tracks ((phaseOffs tl).actions.filter (PAct.due (phaseOffs tl))) (phaseOffs tl)
+    (by rw [hids0]; exact hnd)
+  have htr : (fireActions (phaseOffs tl)).tracks = prepared tl := by
+    simp only [fireActions]
+    rw [f1]; rfl
+  have hq : (fireActions (phaseOffs tl)).q = tl.q := by simp only [fireActions]; exact f3.1
+  have ht : (fireActions (phaseOffs tl)).tolerant = tl.tolerant := by
+    simp only [fireActions]; exact f3.2.2.2.2.2.2.1
+  have hnd2 : (([] ++ prepared tl).map Track.id).Nodup := by
+    rw [List.nil_append, ← htr]
+    simp only [fireActions]; rw [f2, hids0]; exact hnd
+  obtain ⟨p1, p2, _, _⟩ := phaseTracks_solo W hW (prepared tl) [] (fireActions (phaseOffs tl)) (by simpa using htr) hnd2
+  rw [hq, ht] at p1 p2
+  have e := endOfTick_same (phaseTracks W (fireActions (phaseOffs tl)) ((fireActions (phaseOffs tl)).tracks.map Track.id))
+  rw [htr] at e
+  simp only [tickTL, htr, e.1, e.2, p2]
+  exact ⟨trivial, by simpa using p1⟩
+
+/-- What one track contributes to the event phase of a tick: its own calls, plus the release of its
+    notes if it failed. -/
+def contribution (W : World) (q : Nat) (t : Track) : List Call :=
+  (soloTick W q t).calls ++ (if (soloTick W q t).out = .raised then (soloTick W q t).t.flushCalls else [])
+
+/-- The track as it stays in the timeline after its tick (none = removed: finished, or failed). -/
+def survivor (W : World) (q : Nat) (t : Track) : Option Track :=
+  if (soloTick W q t).out = .ok ∧ ¬ ((soloTick W q t).t.finished = true ∧ (soloTick W q t).t.rwd = true)
+  then some (soloTick W q t).t else none
+
+/-- **The event phase is the merge of the tracks' own contributions, in scheduling order; the track
+    list afterwards is the list of the tracks' own survivors** — in tolerant mode with any faults, and
+    (`Or.inr`) in any mode when no track fails. -/
+theorem event_phase_is_merge (W : World) (q : Nat) (tolerant : Bool) (ts : List Track)
+    (hdom : ∀ t ∈ ts, (soloTick W q t).out ≠ .diverged)
+    (hmode : tolerant = true ∨ ∀ t ∈ ts, (soloTick W q t).out = .ok) :
+    (soloPhase W q tolerant ts).calls = (ts.map (contribution W q)).flatten ∧
+    (soloPhase W q tolerant ts).tracks = ts.filterMap (survivor W q) ∧
+    (soloPhase W q tolerant ts).res = .ok := by
+  induction ts with
+  | nil => simp [soloPhase]
+  | cons t ts ih =>
+    obtain ⟨i1, i2, i3⟩ := ih (fun u hu => hdom u (by simp [hu]))
+      (hmode.imp id (fun h u hu => h u (by simp [hu])))
+    have hd := hdom t (by simp)
+    simp only [soloPhase]
+    cases hout : (soloTick W q t).out with
+    | diverged => exact absurd hout hd
+    | raised =>
+      have htol : tolerant = true := by
+        rcases hmode with h | h
+        · exact h
+        · have := h t (by simp); rw [hout] at this; cases this
+      simp only [htol, if_true, List.map_cons, List.flatten_cons, List.filterMap_cons, contribution, survivor, hout]
+      simp only [htol] at i1 i2 i3
+      simp [i1, i2, i3]
+    | ok =>
+      simp only [List.map_cons, List.flatten_cons, List.filterMap_cons, contribution, survivor, hout]
+      by_cases hfin : (soloTick W q t).t.finished = true ∧ (soloTick W q t).t.rwd = true
+      · simp [hfin, i1, i2, i3]
+      · simp [hfin, i1, i2, i3]
+
+/-- **Non-interference** (one tick): the calls of a multi-track tick are the note-off phase followed
+    by each track's own contribution; a track's contribution and survivor do not depend on which other
+    tracks are scheduled, so they are the same in the timeline that holds this track alone. -/
+theorem non_interference (W : World) (hW : NoActions W) (tl : TL) (hnd : (tl.tracks.map Track.id).Nodup)
+    (hdom : ∀ t ∈ prepared tl, (soloTick W tl.q t).out ≠ .diverged)
+    (hmode : tl.tolerant = true ∨ ∀ t ∈ prepared tl, (soloTick W tl.q t).out = .ok) :
+    (tickTL W tl).calls =
+      phaseOffsCalls tl.q tl.tracks ++ ((prepared tl).map (contribution W tl.q)).flatten ∧
+    (tickTL W tl).tl.tracks = (prepared tl).filterMap (survivor W tl.q) := by
+  obtain ⟨d1, d2⟩ := tick_decomposes W hW tl hnd
+  obtain ⟨m1, m2, _⟩ := event_phase_is_merge W tl.q tl.tolerant (prepared tl) hdom hmode
+  exact ⟨by rw [d1, m1], by rw [d2, m2]⟩
+
+/-- The same formula for the timeline holding one track alone: what a track produces alone. -/
+theorem solo_run (W : World) (hW : NoActions W) (tl : TL) (t : Track)
+    (hdom : ∀ u ∈ prepared { tl with tracks := [t] }, (soloTick W tl.q u).out ≠ .diverged)
+    (hmode : tl.tolerant = true ∨ ∀ u ∈ prepared { tl with tracks := [t] }, (soloTick W tl.q u).out = .ok) :
+    (tickTL W { tl with tracks := [t] }).calls =
+      phaseOffsCalls tl.q [t] ++ ((prepared { tl with tracks := [t] }).map (contribution W tl.q)).flatten :=
+  (non_interference W hW { tl with tracks := [t] } (by simp) hdom hmode).1
+
+/-- `prepared` is computed track by track: preparing a list is preparing each of its tracks. -/
+theorem prepared_pointwise (tl : TL) :
+    prepared tl = tl.tracks.map (fun t => applyStarts tl.q (tl.actions.filter (PAct.due tl)) (t.processOffs tl.q)) := by
+  simp [prepared, List.map_map, Function.comp_def]
 
 end IsobarV.C07
